@@ -156,16 +156,16 @@ def run(ctx):
         check_oracle(prog, outs + [0] * 64, "corpus-" + name)
 
     # -- syntactic stream
-    nS = 50000 if ctx.thorough else 7000
+    nS = 40000 if ctx.thorough else 5000
     progs = []
     for i in range(nS):
         prog = H.Gen(rng, max_depth=4, max_stmts=30).program()
         correspond(prog, "random")
-        if i < (25000 if ctx.thorough else 3500):
+        if i < (20000 if ctx.thorough else 2500):
             progs.append(prog)
         if len(res.samples) < 2 and i % 100 == 3:
             res.samples.append({"program": prog})
-    for _ in range(8000 if ctx.thorough else 1200):
+    for _ in range(6000 if ctx.thorough else 1000):
         correspond(H.wild_program(rng), "adversarial")
 
     # -- oracle stream on the same programs, scripted outcomes
@@ -174,7 +174,7 @@ def run(ctx):
         check_oracle(prog, outs, "random")
 
     # -- small programs: every flush placement, both streams
-    nSmall = 700 if ctx.thorough else 100
+    nSmall = 500 if ctx.thorough else 70
     for _ in range(nSmall):
         g = H.Gen(rng, max_depth=3, max_stmts=12)
         core = [t for t in g.program(n_top=rng.choice([2, 3, 4]), flush_p=0.0) if t["k"] != "flush"][:6]
